@@ -358,7 +358,8 @@ def initial_ids(case, impl, draws):
     k = e[1]
     pop = sorted(e[2])          # the population the code handed to random.sample (filtered by initial_recovereds)
     if k > len(pop) or k < 0: return None
-    r = int(F(draws[0])) % max(1, len(pop))
+    r = int(F(draws[0]))
+    if r >= len(pop): r = 0        # as simrun.Scripted.sample / exec's rotate
     return [x[0] for x in (pop[r:] + pop[:r])[:k]]
 
 
@@ -456,7 +457,8 @@ def fsir_tables(case, impl, draws, I0, R0):
             e = take('S')
             if e is None or e[0] == 'bad' or e[1] != k or sorted(e[2]) != sorted((w,) for w in sus):
                 return 'recipients of node %d drawn as %r; expected a %d-sample of the susceptible neighbours %r' % (v, e, k, sus)
-            r = int(draws[di - 1]) % max(1, len(sus))
+            r = int(draws[di - 1])
+            if r >= len(sus): r = 0        # as simrun.Scripted.sample / exec's rotate
             pop = sorted(e[2]); rec = [x[0] for x in (pop[r:] + pop[:r])[:k]]
             for w in sus: dtab[(v, w)] = INF
             for w in rec:
